@@ -189,11 +189,11 @@ type case = {
   mutable id : string; mutable kind : string; mutable src : string;
   mutable sigs : signal list; mutable layout : int list; mutable table : outval list list;
   mutable echo : bool; mutable wdefault : bool; mutable faults : (int * fault) list;
-  mutable rng : string list; mutable max : int; mutable fuel : int; mutable cont : bool;
+  mutable rng : string list; mutable max : int; mutable fuel : int; mutable cont : bool; mutable rebits : (int * int) list;
   mutable tree : string list option;   (* kind dig: the XML tree in prefix token form *)
 }
 let new_case () = { id = ""; kind = "run"; src = ""; sigs = []; layout = []; table = []; echo = false;
-                    wdefault = false; faults = []; rng = []; max = 1000; fuel = 20000; cont = false;
+                    wdefault = false; faults = []; rng = []; max = 1000; fuel = 20000; cont = false; rebits = [];
                     tree = None }
 
 let parse_inval s = if s = "Z" then IZ else IVal (z_of_zt (BigZ.of_string s))
@@ -236,6 +236,7 @@ let read_cases (ic : in_channel) : case list =
        | "max" :: v :: _ -> !cur.max <- int_of_string v
        | "fuel" :: v :: _ -> !cur.fuel <- int_of_string v
        | "cont" :: v :: _ -> !cur.cont <- (v = "1")
+       | "rebits" :: i :: b :: _ -> !cur.rebits <- !cur.rebits @ [(int_of_string i, int_of_string b)]
        | "tree" :: rest -> !cur.tree <- Some rest
        | "end" :: _ -> cases := !cur :: !cases
        | _ -> ()
@@ -361,14 +362,19 @@ let run_iter (c : case) (tc : testcase) (d : Model.n driver) (wdefault : bool) (
            | ItErr (e, st') ->
                if not static then print_calls st.i_log st'.i_log;
                pr "ITEM err %s\n" (ierr_s e);
-               let is_expr = (match e with IE_Runtime (RT_Expr _) -> true | _ -> false) in
-               if c.cont && not is_expr then loop st' (k + 1) else pr "END err\n"
+               let called = List.length st'.i_log > List.length st.i_log in
+               if c.cont && called then loop st' (k + 1) else pr "END err\n"
            | ItRow (row, st') ->
                if not static then print_calls st.i_log st'.i_log;
+               if static then
+                 (* StaticDataRow: inputs, expected entries, line *)
+                 pr "SROW %s | %s | %s\n" (ns row.dr_line) (inputs_s row.dr_inputs)
+                   (String.concat " " (List.map (fun (r : out_result) -> nm r.or_sig.sname ^ ":" ^ expval_s r.or_expected) row.dr_outputs))
+               else begin
                pr "ROW %s | %s | %s | failing=%s\n" (ns row.dr_line) (inputs_s row.dr_inputs)
                  (String.concat " " (List.map out_result_s row.dr_outputs))
                  (String.concat "," (List.map (fun r -> nm r.or_sig.sname) (failing_outputs row)));
-               pr "VARS %s\n" (String.concat " " (sort_vars (ctx_vars st'.i_ctx)));
+               pr "VARS %s\n" (String.concat " " (sort_vars (ctx_vars st'.i_ctx))) end;
                loop st' (k + 1)
        in
        loop st0 0);
@@ -408,6 +414,10 @@ let run_case (c : case) =
              | Ok tc ->
                  pr "PROG %s\n" (hex_encode (prog_s tc.tc_stmts));
                  pr "BIND ok\n";
+                 (* `signals` is a public field of TestCase: a caller may change a width after binding *)
+                 let tc = List.fold_left (fun (tc : testcase) (i, b) ->
+                     { tc with tc_signals = List.mapi (fun j (s : signal) ->
+                         if j = i then { s with sbits = n_of_int b } else s) tc.tc_signals }) tc c.rebits in
                  pr "SIGNALS %s\n" (String.concat " " (List.map signal_s tc.tc_signals));
                  pr "READS %s\n" (String.concat " " (List.map (fun i ->
                      match List.nth_opt tc.tc_signals (int_of_nat i) with Some s -> nm s.sname | None -> "?")
